@@ -709,7 +709,7 @@ Definition key (s : state) : list N :=
 
 (* THE switch: false = the code as it is in /repo (NewConfig does not validate patterns);
    flip to true once hooks/fix-c19-validate-mux-patterns.patch is committed in /repo *)
-Definition validated_now : bool := false.
+Definition validated_now : bool := true.   (* /repo d243ed6: NewConfig validates the patterns *)
 
 (* BootCrash's guard as a stand-alone predicate (used by the C19 driver): does booting this route
    list panic? *)
